@@ -608,8 +608,7 @@ func runHistory(c *lib.Ctx, id int, h history) {
 	in, _ := json.Marshal(h)
 	res := c.Sub("hist", nil, in, nil, 6*time.Minute)
 	parseMu.Lock()
-	snaps, hung := parseSnaps(res.Stdout)
-	stuck := waitStuck
+	snaps, hung, stuck := parseSnaps(res.Stdout)
 	parseMu.Unlock()
 	c.Eval(1)
 	if stuck {
@@ -710,7 +709,7 @@ func runHistory(c *lib.Ctx, id int, h history) {
 	// the fresh run re-uses the same ports: the first child has exited
 	in2, _ := json.Marshal(fresh)
 	res2 := c.Sub("hist", nil, in2, nil, 3*time.Minute)
-	snaps2, _ := parseSnaps(res2.Stdout)
+	snaps2, _, _ := parseSnaps(res2.Stdout)
 	if res2.Code != 0 || len(snaps2) != 2 || !snaps2[1].OK {
 		c.Inconclusive(fmt.Sprintf("history %d: fresh reference process failed (exit %d)", id, res2.Code))
 		return
@@ -729,12 +728,10 @@ func runHistory(c *lib.Ctx, id int, h history) {
 	c.SampleTag("history", 3, map[string]interface{}{"steps": h.Steps, "final_battery_lines": len(got)})
 }
 
-// waitStuck is set by parseSnaps (histories run one at a time per parser call;
-// read right after the call).
-var waitStuck bool
-
-func parseSnaps(out []byte) ([]*snapshot, int) {
-	waitStuck = false
+// parseSnaps reads a child's journal: the snapshots, the step that never
+// returned (-1: none) and whether waiting on the final instance got stuck.
+func parseSnaps(out []byte) ([]*snapshot, int, bool) {
+	waitStuck := false
 	var snaps []*snapshot
 	hung := -1
 	sc := bufio.NewScanner(bytes.NewReader(out))
@@ -765,7 +762,7 @@ func parseSnaps(out []byte) ([]*snapshot, int) {
 			snaps = append(snaps, &s)
 		}
 	}
-	return snaps, hung
+	return snaps, hung, waitStuck
 }
 
 // once is lib.Once with a short exchange timeout: a listener nobody accepts on
